@@ -55,6 +55,23 @@ def run(ck, rng, tier):
         scaling = rng.choice((0, 0, 1, 2, 3, 4, 5, -1))
         mag = rng.choice((1.0, 1.0, 30.0, 0.05, 1e-3, 1e-5, 1e-6, 1e4)) if scaling in (0, -1) else rng.choice((1.0, 30.0, 0.05))
         X, s = gen_separated(rng, n, m, mag)
+        if c == 6:
+            # range scaling of columns lying entirely just above the missing-value code (ordinary numbers)
+            scaling, mag = 4, 1.0
+            X, s = gen_separated(rng, n, m, 1.0)
+            X = X + 1.0000005e8
+            ck.count("columns just above the missing-value code")
+        elif c == 7:
+            # exactly uncorrelated variables of which the LAST has the largest variance: the leading component is that
+            # variable itself, every other column is orthogonal to it
+            scaling, mag, nproc = 0, 1.0, 1
+            Q_, _ = np.linalg.qr(np.array([[rng.gauss(0, 1) for _ in range(m)] for _ in range(n)]) - 0.0)
+            Q_ = Q_ - Q_.mean(axis=0)
+            Q_, _ = np.linalg.qr(Q_)
+            s = np.array([2.0 ** k for k in range(m)])
+            X = Q_ * s
+            s = s[::-1]
+            ck.count("uncorrelated variables, last one dominant")
         npc = rng.randint(1, min(3, len(s)))
         # the property presumes rank >= number of components AFTER preprocessing (a column whose scale
         # falls inside the zero guard is dropped by the preprocessing; centring costs one rank)
